@@ -91,6 +91,8 @@ func (q Query) String() string {
 	switch q.Kind {
 	case "dns":
 		return fmt.Sprintf("dns(%s type=%d client=%q ip=%s tags=%v)", q.Host, q.DNSType, q.Client, q.IP, q.Tags)
+	case "dnsmatch":
+		return fmt.Sprintf("DNSEngine.Match(%s)", q.Host)
 	case "cosmetic":
 		return fmt.Sprintf("cosmetic(%s opt=%d)", q.Host, q.Option)
 	default:
@@ -132,6 +134,10 @@ func (e *Engines) Answer(q Query) string {
 		return RenderCosmetic(e.Eng.GetCosmeticResult(q.Host, q.Option))
 	case "dns":
 		res, ok := e.DNS.MatchRequest(q.DNSRequest())
+		return RenderDNSResult(res, ok) + " rewrites=" + RenderNets(res.DNSRewrites())
+	case "dnsmatch":
+		// the Match(hostname) convenience wrapper
+		res, ok := e.DNS.Match(q.Host)
 		return RenderDNSResult(res, ok) + " rewrites=" + RenderNets(res.DNSRewrites())
 	}
 	panic("unknown query kind " + q.Kind)
